@@ -1572,6 +1572,8 @@ func connectDefect(raw []byte) string {
 			return "string-not-utf8"
 		case strings.Contains(err.Error(), "U+0000"):
 			return "string-with-nul"
+		case strings.Contains(err.Error(), "will topic"):
+			return "will-topic-not-a-topic-name"
 		}
 	}
 	return "other"
